@@ -8,6 +8,15 @@
       mode 1: concurrent ("race:") case, judged by the oracle only; output 1.
       mode 9: "check history": 9 s0 (tag id meth x val)*  -- the verified linearizability checker
               [Lin.linearizable] on a recorded client history; output 1 (linearizable) or 0.
+    cmode 2: LOCAL -- the callers live in the process of the callee; requests and replies travel through
+              local channels: nothing is serialized (the flags about undecodable / oversized requests and
+              replies mean nothing, the later methods 6/7 do not exist) and the connection plays no part
+              (op 3 is refused).
+    method b + 8 * layout (b <= 5, layout <= 3): the scripted method b, declared in the harness traits with its
+              attributes in another textual layout; the model has one method b.
+    op 7 (stop, once per case): the callee goes away -- [AStop true] for the rtc servers (the future of
+              [serve()] is dropped); for the remote functions the provider is dropped: the scheduler below
+              lets the provider task notice that ([AStop false]) whenever it is at its [select!].
     The target is the counter object of the harness: state N, get = (s + x) mod P,
     add: s' = (3 s + x + 1) mod P returning s', take = (5 s + x) mod P. *)
 From Remoc Require Import Lib.Base Rtc.Lin Rtc.Server.
@@ -47,6 +56,7 @@ Record rstate := mkR {
   r_sys : csys;
   r_open : list (N * N);          (* gates that were opened: (call id, gate) *)
   r_ids : list (option N);        (* call op number -> call id (None: the call was not issued) *)
+  r_stop : bool;                  (* the stop op was used *)
 }.
 
 Definition gate_open (op : list (N * N)) (i g : N) : bool :=
@@ -78,7 +88,11 @@ Fixpoint find_idx {A} (f : A -> bool) (l : list A) (k : N) : option N :=
   | x :: t => if f x then Some k else find_idx f t (k + 1)
   end.
 
-Definition next_action (s : csys) (op : list (N * N)) : option (action arg) :=
+Definition loop_idle (s : csys) : bool := match loop s with LIdle => true | _ => false end.
+
+(** [gone]: the provider of the remote function has been dropped; its task notices that when it is at
+    its [select!] (first branch, biased) *)
+Definition next_action (s : csys) (op : list (N * N)) (gone : bool) : option (action arg) :=
   match find_idx (fun c => match cr_st c with CInit => true | _ => false end) (calls s) 0 with
   | Some i => Some (ASend i)
   | None =>
@@ -88,6 +102,7 @@ Definition next_action (s : csys) (op : list (N * N)) : option (action arg) :=
   match wire s with
   | _ :: _ => Some (ADeliverReq 0)
   | [] =>
+  if gone && loop_idle s then Some (AStop false) else
   if loop_can s op then Some ALoop else
   match find_idx (h_can s op) (tasks s) 0 with
   | Some k => Some (ATask k)
@@ -111,13 +126,13 @@ Definition next_action (s : csys) (op : list (N * N)) : option (action arg) :=
       if all_dead (clients s) && negb (qclosed s) then Some ACloseReqs else None
   end end end end end end end.
 
-Fixpoint settle (fuel : nat) (lim : N) (s : csys) (op : list (N * N)) : option csys :=
+Fixpoint settle (fuel : nat) (lim : N) (s : csys) (op : list (N * N)) (gone : bool) : option csys :=
   match fuel with
   | O => None
   | S f =>
-      match next_action s op with
+      match next_action s op gone with
       | None => Some s
-      | Some a => settle f lim (cstep lim s a) op
+      | Some a => settle f lim (cstep lim s a) op gone
       end
   end.
 
@@ -171,13 +186,18 @@ Definition report (rfn : bool) (acc : N) (s0 s1 : csys) : list N :=
 (** ** the user actions of the ops *)
 Definition shared_slot (flav : N) : bool := (flav =? 0) || (flav =? 7) || (flav =? 8).
 
-Definition method_ok (flav m : N) : bool :=
-  match flav with
-  | 0 => m <=? 5
-  | 1 | 3 => m <=? 1
-  | 2 | 4 | 5 => (m <=? 3) || (m =? 6) || (m =? 7)
-  | _ => true
-  end.
+(** [m] = base + 8 * layout *)
+Definition method_ok (flav : N) (local : bool) (m : N) : bool :=
+  let b := m mod 8 in
+  let lay := m / 8 in
+  if 5 <? flav then true
+  else if (3 <? lay) || ((0 <? lay) && (5 <? b)) || (local && (5 <? b)) then false
+  else
+    match flav with
+    | 0 => b <=? 5
+    | 1 | 3 => b <=? 1
+    | _ => (b <=? 3) || (b =? 6) || (b =? 7)
+    end.
 
 (** the method a remote function flavour runs, whatever the op says *)
 Definition eff_meth (flav m : N) : N :=
@@ -185,7 +205,8 @@ Definition eff_meth (flav m : N) : N :=
 
 (** remote functions have no size limits and [RFnMut] applies its effect when called: the flags for
     oversized requests/replies (and gate 1 for [RFnMut]) mean nothing there *)
-Definition mask_flags (flav d : N) : N :=
+Definition mask_flags (flav : N) (local : bool) (d : N) : N :=
+  let d := if local then N.clearbit (N.clearbit (N.clearbit (N.clearbit d 2) 3) 4) 5 else d in
   if 5 <? flav then
     let d := N.clearbit (N.clearbit d 4) 5 in
     if flav =? 7 then N.clearbit d 0 else d
@@ -202,16 +223,16 @@ Definition slot_busy (s : csys) (excl : bool) : bool :=
 Definition nth_id (ids : list (option N)) (k : N) : option N :=
   match nth_error ids (N.to_nat k) with Some (Some i) => Some i | _ => None end.
 
-Definition do_op (flav lim : N) (r : rstate) (o a b c d : N) : option (N * rstate * list (action arg)) :=
+Definition do_op (flav lim : N) (local : bool) (r : rstate) (o a b c d : N) : option (N * rstate * list (action arg)) :=
   let s := r_sys r in
   match o with
   | 0 =>
-      let m := eff_meth flav b in
+      let m := eff_meth flav (if 5 <? flav then b else b mod 8) in
       let cl := a in
-      let d := mask_flags flav d in
+      let d := mask_flags flav local d in
       let call := mk_call (5 <? flav) m c d in
       let excl := negb (match c_kind call with KRef => true | _ => false end) in
-      let ok := method_ok flav b && client_exists s cl &&
+      let ok := method_ok flav local b && client_exists s cl &&
                 negb (shared_slot flav && slot_busy s excl) in
       if ok then
         let i := len (calls s) in
@@ -219,11 +240,11 @@ Definition do_op (flav lim : N) (r : rstate) (o a b c d : N) : option (N * rstat
                     ++ (if N.testbit d 7 then [ADropCall i] else [ASend i])
                     ++ (if N.testbit d 6 then [ADropCall i] else [])
                     ++ (match c_kind call with KVal => [ADropClient cl] | _ => [] end) in
-        Some (0, mkR s (r_open r) (r_ids r ++ [Some i]), acts)
-      else Some (1, mkR s (r_open r) (r_ids r ++ [None]), [])
+        Some (0, mkR s (r_open r) (r_ids r ++ [Some i]) (r_stop r), acts)
+      else Some (1, mkR s (r_open r) (r_ids r ++ [None]) (r_stop r), [])
   | 1 =>
       match nth_id (r_ids r) a with
-      | Some i => if (b =? 1) || (b =? 2) then Some (0, mkR s ((i, b) :: r_open r) (r_ids r), []) else Some (1, r, [])
+      | Some i => if (b =? 1) || (b =? 2) then Some (0, mkR s ((i, b) :: r_open r) (r_ids r) (r_stop r), []) else Some (1, r, [])
       | None => Some (1, r, [])
       end
   | 2 =>
@@ -235,25 +256,29 @@ Definition do_op (flav lim : N) (r : rstate) (o a b c d : N) : option (N * rstat
           end
       | None => Some (1, r, [])
       end
-  | 3 => Some (0, r, [ACut])
+  | 3 => if local then Some (1, r, []) else Some (0, r, [ACut])
   | 4 =>
       if client_exists s a && negb (shared_slot flav && slot_busy s true)
       then Some (0, r, [ADropClient a]) else Some (1, r, [])
   | 5 | 6 => Some (0, r, [])
+  | 7 =>
+      if r_stop r then Some (1, r, [])
+      else Some (0, mkR s (r_open r) (r_ids r) true, if 5 <? flav then [] else [AStop true])
   | _ => None
   end.
 
-Fixpoint run_ops (flav lim : N) (r : rstate) (ops : list N) : list N :=
+Fixpoint run_ops (flav lim : N) (local : bool) (r : rstate) (ops : list N) : list N :=
   match ops with
   | o :: a :: b :: c :: d :: rest =>
-      match do_op flav lim r o a b c d with
+      match do_op flav lim local r o a b c d with
       | None => [98]
       | Some (acc, r1, acts) =>
           let s0 := r_sys r1 in
           let s1 := fold_left (cstep lim) acts s0 in
-          match settle (200 + 40 * length (calls s1)) lim s1 (r_open r1) with
+          (* the provider of a remote function is gone once the stop op was used *)
+          match settle (200 + 40 * length (calls s1)) lim s1 (r_open r1) (r_stop r1 && (5 <? flav)) with
           | None => [97]
-          | Some s2 => report (5 <? flav) acc s0 s2 ++ run_ops flav lim (mkR s2 (r_open r1) (r_ids r1)) rest
+          | Some s2 => report (5 <? flav) acc s0 s2 ++ run_ops flav lim local (mkR s2 (r_open r1) (r_ids r1) (r_stop r1)) rest
           end
       end
   | [] => []
@@ -307,13 +332,13 @@ Definition run_rtc (inp : list N) : list N :=
   match inp with
   | 9 :: s0 :: rest => check_history s0 rest
   | mode :: flav :: spawn :: pol :: ncl :: cmode :: defer :: lim :: ops =>
-      if (1 <? mode) || (8 <? flav) || (2 <? pol) || (ncl =? 0) || (4 <? ncl) || (1 <? cmode)
+      if (1 <? mode) || (8 <? flav) || (2 <? pol) || (ncl =? 0) || (4 <? ncl) || (2 <? cmode)
          || (2000 <? len ops) || (shared_slot flav && negb (ncl =? 1)) then [98]
       else if mode =? 1 then [1]
       else
         let rfn := 5 <? flav in
         let sp := if flav =? 6 then true else if rfn then false else negb (spawn =? 0) in
         let s := init (flavour_of flav) sp (if rfn then PIgnore else policy_of pol) (negb rfn) (N.to_nat ncl) 0 in
-        run_ops flav lim (mkR s [] []) ops
+        run_ops flav lim (cmode =? 2) (mkR s [] [] false) ops
   | _ => [98]
   end.
